@@ -798,4 +798,4 @@ def check(ctx):
                                 "Guards.crash_gen / crash_call list the loud downstream failures of those probe models on the current tree "
                                 "(class 'other'); they are part of Impl, not of the guards",
                                 "mixed delay kinds (plain-delay edge + delay+spread edge, both orders) are run on the slice inplace=true, sparse=false",
-                                "outside guard_node_value_not_circuit (known finding C20-F4) the full statement is refuted (C20_refuted_short_node_value); F1-F3 are repaired (D48, D49, D76)"])
+                                "no guard is left: F1-F4 are repaired (D48, D49, D76, D79), C20_full_holds is unconditional; their witnesses are regression cases"])
